@@ -146,6 +146,8 @@ def rule_stmt(b):
         reg_num = tg.consts["REGISTER_NUM"]["val"]
         nreg = (reg_num - tg.reserved) // 2
         rs = [0, 2] if b == "rv64" else [0, nreg - 2, nreg + 1]
+        if ctx.tier == "thorough":
+            rs = [0, 1, 2, 3, 6] if b == "rv64" else sorted({0, 1, 2, nreg - 3, nreg - 2, nreg - 1, nreg, nreg + 1, nreg + 2})
         spill = tg.spill_temp_slot()
         scratch_slots = [spill] if spill else []
         T = ty_decl("T")
